@@ -510,6 +510,18 @@ def runAt (eval : EvalFn) (base : RunFn) (defs : Env) : Nat → RunFn
         let tr := trace eval (runAt eval base defs n) inputs w
         subOut (collect eval w tr.results) (tr.calls.flatMap (·.api))
 
+/-! ## specification-side helpers -/
+
+/-- the outcome a step ended with -/
+def Trace.resultOf (t : Trace) (l : Label) : Option StepRes := (lookupL l t.results).map (·.res)
+
+/-- the Logic evaluations made on behalf of step `l` -/
+def Trace.callsOf (t : Trace) (l : Label) : List Call := t.calls.filter fun c => decide (c.step = l)
+
+/-- the dependencies' values as the final results show them (`none` unless all are Ok) -/
+def Trace.okValsOf (t : Trace) (deps : List Label) : Option (List (String × JVal)) :=
+  okVals (depRes t.results deps)
+
 /-! ## the standard evaluator for the generators' expression shapes (used by the driver and examples) -/
 
 def getPath : List String → JVal → Option JVal
